@@ -2,4 +2,4 @@
 # Full clean build of the Coq development and the extracted driver, offline.
 set -e
 cd "$(dirname "$0")"
-exec python3 tools/check.py --setup
+exec /venv/bin/python tools/check.py --setup
